@@ -146,7 +146,7 @@ REVERTS: list[tuple[str, str, list[str]]] = [
     ("revert-F9", "fix: record _values/_sizes when a single-char structure", ["C09.R3"]),
     ("revert-F4", "fix: keep rejecting bit field values that overflow a signed storage unit|fix: write bit-field units of signed storage types", ["C06.R5", "C01.R6"]),
     ("revert-F11", "fix: record member sizes of a dynamic union", ["C09.R4"]),
-    ("revert-F12", "fix: alias typedefs of array and pointer types", ["C20.R6"]),
+    ("revert-F12", "fix: alias every typedef of an array or pointer type to its type hint|fix: alias typedefs of array and pointer types", ["C20.R6"]),
     ("revert-F13", "fix: emit the integer value of anonymous enum members", ["C20.R7"]),
     ("revert-F14", "fix: leave structures with byte-based|fix: slice compiled arrays of enums|fix: start a new compiled read block when a field offset moves backwards|fix: start a new compiled read block when a field behind|fix: seek to the field offset when a compiled read block starts behind a gap", ["C03.R8"]),
     ("revert-F15", "fix: start a new compiled read block when a field offset moves backwards|fix: leave structures with byte-based|fix: slice compiled arrays of enums|fix: start a new compiled read block when a field behind", ["C03.R12"]),
@@ -161,6 +161,10 @@ REVERTS: list[tuple[str, str, list[str]]] = [
     ("revert-F25", "fix: remember the storage type of every compiled bit field unit", ["C06.R1", "C03.R9"]),
     # F28 (values are refused at write()) makes the overflow of F26 unreachable, so F26 is only visible with F28 reverted as well
     ("revert-F26", "fix: reject bit field values that do not fit their field|fix: keep rejecting bit field values that overflow a signed storage unit", ["C06.R5", "C01.R6"]),
+    ("revert-F29", "fix: give the stub class of an enum without members a body", ["C20.R12"]),
+    ("revert-F30", "fix: alias every typedef of an array or pointer type to its type hint", ["C20.R12"]),
+    ("revert-F31", "fix: do not rebuild a union under the name of an anonymous structure's field", ["C11.R2"]),
+    ("revert-F32", "fix: dump a union through its anonymous structure when no regular member is as large", ["C11.R12", "C01.R18"]),
     ("revert-F28", "fix: reject bit field values that do not fit their field", ["C06.R5", "C01.R6"]),
     ("revert-F27", "fix: do not pad in front of an enum bit field that continues a storage unit", ["C02.R9", "C01.R16", "C04.R13"]),
 ]
